@@ -201,7 +201,14 @@ def ob_override():
         interp = types.SimpleNamespace(subproject='', current_node=None)
         interp.coredata = types.SimpleNamespace(optstore=types.SimpleNamespace(get_value_for=lambda k: wm if k.name == 'wrap_mode' else []), deps={MachineChoice.HOST: {}})
         odep = mkdep('override', found, over_ver)
+        # what came before in the same configuration: a lookup of ANOTHER dependency with identifier-relevant keywords (dependency() passes all keywords, defaults
+        # filled in; meson.override_dependency() computes its key from native / static only). The key of 'foo' depends on 'foo''s own arguments alone
+        from mesonbuild.interpreter.type_checking import DEPENDENCY_KWS
+        full = lambda kw: dict({k.name: k.default for k in DEPENDENCY_KWS}, **kw)
+        prev = [None, {'modules': ['Core']}, {'method': 'pkg-config'}, {'language': 'c'}, {'static': True}][choose(5, 'an earlier lookup')]
+        if prev is not None: dependencies.get_dep_identifier('bar', full(dict(prev, native=MachineChoice.HOST)))
         ident = dependencies.get_dep_identifier('foo', {'native': MachineChoice.HOST})
+        check(ident == dependencies.get_dep_identifier('foo', full({'native': MachineChoice.HOST})), 'the key of a dependency is a function of its own name and keywords: defaults spelled out or not, whatever was looked up before')
         interp.build = types.SimpleNamespace(dependency_overrides={MachineChoice.HOST: {ident: build.DependencyOverride(odep, None, explicit=True)}})
         interp.environment = types.SimpleNamespace(wrap_resolver=types.SimpleNamespace(find_dep_provider=lambda n: (None, None), get_varname=lambda s, n: None))
         interp.subprojects = {MachineChoice.HOST: {}}
@@ -214,7 +221,7 @@ def ob_override():
         try:
             # keyword arguments that do NOT select a different dependency (include_type, version, required ...) must not hide the override
             extra = [{}, {'include_type': 'system'}, {'include_type': 'non-system'}, {'include_type': 'preserve'}, {'not_found_message': 'x'}, {'disabler': False}][choose(6, 'extra_kwarg')]
-            dep = df.lookup(dict({'required': required, 'native': MachineChoice.HOST, 'version': [vop + want]}, **extra))
+            dep = df.lookup(full(dict({'required': required, 'native': MachineChoice.HOST, 'version': [vop + want]}, **extra)))
             res = dep.label if dep.found() else 'notfound'
         except DependencyException:
             res = 'error'
